@@ -1,0 +1,99 @@
+//go:build verif
+
+package j5convert
+
+// Contracts for contract-based verification (/verif, properties C02, C13, C14, C07, C12).
+
+//@ spec func pfx(p string, s string) string = hasPrefix(s, p) ? s : p + s
+
+//@ func (*enumBuilder).addValue
+//@   requires e != nil && e.desc != nil && schema != nil
+//@   requires number == 0 ==> len(e.desc.Value) >= 1
+//@   requires forall i int :: 0 <= i && i < len(e.desc.Value) ==> reach(e.desc.Value[i])
+//@   ensures desc: e.desc == old(e.desc) && e.prefix == old(e.prefix)
+//@   ensures len: len(e.desc.Value) == old(len(e.desc.Value)) + (number == 0 ? 0 : 1)
+//@   ensures new: number != 0 ==> e.desc.Value[old(len(e.desc.Value))] != nil
+//@   |   && *e.desc.Value[old(len(e.desc.Value))].Number == number
+//@   |   && *e.desc.Value[old(len(e.desc.Value))].Name == pfx(e.prefix, schema.Name)
+//@   ensures zero: number == 0 ==> e.desc.Value[0] != nil && *e.desc.Value[0].Number == 0 && *e.desc.Value[0].Name == pfx(e.prefix, schema.Name)
+//@   ensures keep: forall i int :: (number == 0 ? 1 : 0) <= i && i < old(len(e.desc.Value)) ==> e.desc.Value[i] == old(e.desc.Value[i])
+//@   ensures reach: forall i int :: 0 <= i && i < len(e.desc.Value) ==> reach(e.desc.Value[i])
+
+//@ spec func explicitZero(node *sourcewalk.EnumNode) bool =
+//@   | len(node.Schema.Options) > 0 && node.Schema.Options[0].Number == 0 && hasSuffix(node.Schema.Options[0].Name, "UNSPECIFIED")
+//@ spec func enumPrefix(node *sourcewalk.EnumNode) string =
+//@   | node.Schema.Prefix == "" ? screamingSnake(node.Schema.Name) + "_" : node.Schema.Prefix
+
+// The enum handed to the parent context (file or message) carries the declared options numbered in
+// declaration order after the zero value (C02), which is what makes appending an option leave the
+// earlier numbers unchanged (C13).
+//@ func (*conversionVisitor).visitEnumNode
+//@   requires ww != nil && node != nil && node.Schema != nil
+//@   requires len(node.Schema.Options) < 2147483646
+//@   requires forall i int :: 0 <= i && i < len(node.Schema.Options) ==> node.Schema.Options[i] != nil
+//@   let k = explicitZero(node) ? 1 : 0
+//@   assert at addEnum#0 name: eb != nil && eb.desc != nil && *eb.desc.Name == node.Schema.Name
+//@   assert at addEnum#0 count: len(eb.desc.Value) == len(node.Schema.Options) - k + 1
+//@   assert at addEnum#0 zero: *eb.desc.Value[0].Number == 0 &&
+//@   |   *eb.desc.Value[0].Name == (explicitZero(node) ? pfx(enumPrefix(node), node.Schema.Options[0].Name) : enumPrefix(node) + "UNSPECIFIED")
+//@   assert at addEnum#0 numbering: forall j int :: 1 <= j && j < len(eb.desc.Value) ==>
+//@   |   *eb.desc.Value[j].Number == j && *eb.desc.Value[j].Name == pfx(enumPrefix(node), node.Schema.Options[j - 1 + k].Name)
+//@   loop 1 invariant eb != nil && eb.desc != nil && reach(eb) && reach(eb.desc) && eb.prefix == enumPrefix(node) && *eb.desc.Name == node.Schema.Name
+//@   loop 1 invariant len(eb.desc.Value) == 1 + $iter
+//@   loop 1 invariant forall i int :: 0 <= i && i < len(eb.desc.Value) ==> reach(eb.desc.Value[i])
+//@   loop 1 invariant zeronum: *eb.desc.Value[0].Number == 0
+//@   loop 1 invariant zeronameA: explicitZero(node) ==> *eb.desc.Value[0].Name == pfx(enumPrefix(node), node.Schema.Options[0].Name)
+//@   loop 1 invariant zeronameB: !explicitZero(node) ==> *eb.desc.Value[0].Name == enumPrefix(node) + "UNSPECIFIED"
+//@   loop 1 invariant forall j int :: 1 <= j && j < len(eb.desc.Value) ==>
+//@   |   *eb.desc.Value[j].Number == j && *eb.desc.Value[j].Name == pfx(enumPrefix(node), node.Schema.Options[j - 1 + k].Name)
+//@   loop 1 invariant forall i int :: 0 <= i && i < len(node.Schema.Options) ==> node.Schema.Options[i] == old(node.Schema.Options[i]) && node.Schema.Options[i].Name == old(node.Schema.Options[i].Name) && node.Schema.Options[i].Number == old(node.Schema.Options[i].Number)
+//@   loop 1 invariant node.Schema == old(node.Schema) && node.Schema.Options == old(node.Schema.Options) && node.Schema.Name == old(node.Schema.Name) && node.Schema.Prefix == old(node.Schema.Prefix)
+//@   loop 1 invariant optionsToSet == node.Schema.Options[k:]
+
+// Declarations are appended in visiting order and earlier entries are never touched (C13), and a
+// file's dependency list is kept sorted and duplicate-free on every insertion (C14).
+
+//@ func (*fileContext).addMessage
+//@   requires fb != nil && fb.fdp != nil && message != nil
+//@   ensures len(fb.fdp.MessageType) == old(len(fb.fdp.MessageType)) + 1
+//@   ensures fb.fdp.MessageType[old(len(fb.fdp.MessageType))] == message.descriptor
+//@   ensures forall i int :: 0 <= i && i < old(len(fb.fdp.MessageType)) ==> fb.fdp.MessageType[i] == old(fb.fdp.MessageType[i])
+
+//@ func (*fileContext).addEnum
+//@   requires fb != nil && fb.fdp != nil && enum != nil
+//@   ensures len(fb.fdp.EnumType) == old(len(fb.fdp.EnumType)) + 1
+//@   ensures fb.fdp.EnumType[old(len(fb.fdp.EnumType))] == enum.desc
+//@   ensures forall i int :: 0 <= i && i < old(len(fb.fdp.EnumType)) ==> fb.fdp.EnumType[i] == old(fb.fdp.EnumType[i])
+
+//@ func (*fileContext).addService
+//@   requires fb != nil && fb.fdp != nil && service != nil
+//@   ensures len(fb.fdp.Service) == old(len(fb.fdp.Service)) + 1
+//@   ensures fb.fdp.Service[old(len(fb.fdp.Service))] == service.desc
+//@   ensures forall i int :: 0 <= i && i < old(len(fb.fdp.Service)) ==> fb.fdp.Service[i] == old(fb.fdp.Service[i])
+
+//@ func (*MessageBuilder).addMessage
+//@   requires msg != nil && msg.descriptor != nil && message != nil
+//@   ensures len(msg.descriptor.NestedType) == old(len(msg.descriptor.NestedType)) + 1
+//@   ensures msg.descriptor.NestedType[old(len(msg.descriptor.NestedType))] == message.descriptor
+//@   ensures forall i int :: 0 <= i && i < old(len(msg.descriptor.NestedType)) ==> msg.descriptor.NestedType[i] == old(msg.descriptor.NestedType[i])
+
+//@ func (*MessageBuilder).addEnum
+//@   requires msg != nil && msg.descriptor != nil && enum != nil
+//@   ensures len(msg.descriptor.EnumType) == old(len(msg.descriptor.EnumType)) + 1
+//@   ensures msg.descriptor.EnumType[old(len(msg.descriptor.EnumType))] == enum.desc
+//@   ensures forall i int :: 0 <= i && i < old(len(msg.descriptor.EnumType)) ==> msg.descriptor.EnumType[i] == old(msg.descriptor.EnumType[i])
+
+//@ spec func sortedStrs(s []string) bool = forall i int, j int :: 0 <= i && i < j && j < len(s) ==> s[i] <= s[j]
+//@ spec func nodupStrs(s []string) bool = forall i int, j int :: 0 <= i && i < j && j < len(s) ==> s[i] != s[j]
+//@ spec func inStrs(s []string, x string) bool = exists i int :: 0 <= i && i < len(s) && s[i] == x
+
+//@ func (*fileContext).ensureImport
+//@   requires fb != nil && fb.fdp != nil && fb.fdp.Name != nil
+//@   requires importPath != "" && contains(importPath, "/")
+//@   requires nodupStrs(fb.fdp.Dependency)
+//@   ensures sorted: old(sortedStrs(fb.fdp.Dependency)) ==> sortedStrs(fb.fdp.Dependency)
+//@   ensures nodup: nodupStrs(fb.fdp.Dependency)
+//@   ensures member: importPath != *fb.fdp.Name ==> inStrs(fb.fdp.Dependency, importPath)
+//@   ensures keeps: forall i int :: 0 <= i && i < old(len(fb.fdp.Dependency)) ==> inStrs(fb.fdp.Dependency, old(fb.fdp.Dependency[i]))
+//@   ensures idempotent: old(inStrs(fb.fdp.Dependency, importPath)) ==> len(fb.fdp.Dependency) == old(len(fb.fdp.Dependency))
+//@   loop 0 invariant forall i int :: 0 <= i && i <= $iter - 1 && i < len(fb.fdp.Dependency) ==> fb.fdp.Dependency[i] != importPath
